@@ -35,6 +35,9 @@ for _n in ("disp_serverudp", "disp_serverstream", "disp_client"):
     MODULE_OF["MC_" + _n] = MODULE_OF["GEN_" + _n] = "Dispatch.tla"
     MC_DEPTH["MC_" + _n] = None
     GEN_DEPTH["GEN_" + _n] = None
+MODULE_OF["MC_reaper"] = MODULE_OF["GEN_reaper"] = "TurnReaper.tla"
+MC_DEPTH["MC_reaper"] = (10, 12)
+GEN_DEPTH["GEN_reaper"] = (8, 9)
 for _n in ("steps",):
     MODULE_OF["MC_" + _n] = MODULE_OF["GEN_" + _n] = "TurnServerSteps.tla"
     MC_DEPTH["MC_" + _n] = None
@@ -117,13 +120,18 @@ def server_attribute(ctx, exlines, badrel, module, cfg):
     line = _json.loads(exlines[badrel])
     if line.get("e") == "Bad":       # a local check of the driver: it names its owners itself
         return {"bad"}, set(line.get("owners", []))
+    if len([x for x in ctx.abandoned_traces if x.get("family", "").startswith("server")]) >= 4:
+        return {"(not attributed: four executions of this run were attributed already)"}, set()
+    # the execution up to and including the rejected Settle line; observations are ignored from that line on only
     cur = _os.path.join(ctx.scratch, "attr.ndjson")
-    open(cur, "w").write("\n".join(exlines) + "\n")
+    open(cur, "w").write("\n".join(exlines[:badrel + 1]) + "\n")
 
     def accepted(relax):
+        # one linearisation of the rejected round that passes its Settle line is enough: depth-first, stop there
         rset = "{" + ", ".join('"%s"' % r for r in sorted(relax)) + "}"
-        rc, txt, rec = ctx.tlc(module, cfg, {"TraceFile": '"%s"' % cur, "Relax": rset}, workers=1, timeout=600)
-        return "TRACE ACCEPTED" in txt and "TRACE REJECTED" not in txt
+        rc, txt, rec = ctx.tlc(module, "TraceServerAttr.cfg", {"TraceFile": '"%s"' % cur, "Relax": rset, "RelaxFrom": badrel + 1},
+                               workers=1, timeout=60, env={"JAVA_TOOL_OPTIONS": "-Dtlc2.tool.queue.IStateQueue=StateDeque"})
+        return "Invariant NotDone is violated" in txt
 
     need = set(SERVER_RELAX)
     if not accepted(need):
@@ -142,6 +150,14 @@ def server_attribute(ctx, exlines, badrel, module, cfg):
 def server_trace(ctx):
     n = 40 if ctx.tier == "quick" else 600
     ctx.trace_validate("server", "TestServerTrace", "TraceServer.tla", "TraceServer.cfg", n, attribute=server_attribute)
+    if not ctx.violations:
+        server_rt(ctx)
+
+
+def server_rt(ctx):
+    """real time, six clients at once, each with its own history (validated one after the other)"""
+    n = 4 if ctx.tier == "quick" else 60
+    ctx.trace_validate("server-rt", "TestServerRT", "TraceServer.tla", "TraceServer.cfg", n, attribute=server_attribute)
 
 
 def with_server_trace(run):
@@ -162,10 +178,19 @@ def c12_run(ctx):
         ctx.trace_validate("clienttxn-rt", "TestClientTxnRT", "TraceClientTxnRT.tla", "TraceClientTxnRT.cfg", n)
 
 
+def c09_run(ctx):
+    core_run(["MC_disp_serverudp", "MC_disp_serverstream", "MC_disp_client", "MC_framer"],
+             ["GEN_disp_serverudp", "GEN_disp_serverstream", "GEN_disp_client", "GEN_framer", "GEN_tcpB", "GEN_auth"])(ctx)
+    if not ctx.violations:   # well-formed requests of several parties at once: nothing may wedge the server (real time)
+        server_rt(ctx)
+
+
 def c13_run(ctx):
     n = 30 if ctx.tier == "quick" else 400
     ctx.model_check("MC_clientconn.tla", "MC_clientconn.cfg", None)
     ctx.trace_validate("clientconn", "TestClientConnTrace", "TraceClientConn.tla", "TraceClientConn.cfg", n)
+    if not ctx.violations:   # real time: sixteen writers enter WriteTo at the same instant, round after round
+        ctx.trace_validate("clientconn-rt", "TestClientConnRT", "TraceClientConn.tla", "TraceClientConn.cfg", 3 if ctx.tier == "quick" else 40)
 
 
 def c18_run(ctx):
@@ -175,6 +200,7 @@ def c18_run(ctx):
         ctx.trace_validate("clientconn", "TestClientConnTrace", None, None, n, alive_only=True)
         ctx.trace_validate("relay", "TestRelayTrace", None, None, n, alive_only=True)
         ctx.trace_validate("server", "TestServerTrace", None, None, n, alive_only=True)
+        server_rt(ctx)
 
 
 def c05_run(ctx):
@@ -214,7 +240,7 @@ PROPS = {
                                            "inbound MTU 1600 and 1200, 25 boundary lengths plus random ones up to 9000, single datagrams and bursts of 3-8 that arrive before the application reads; "
                                            "every arrival must be byte-identical to something sent in that direction for that endpoint, once, truthfully attributed; within the limits it must have arrived when the execution settles"]),
     "C06": dict(title="allocation lifetime, refresh and deletion are exact", level="model_checking",
-                run=with_server_trace(core_run(["MC_time", "MC_life", "MC_stream"], ["GEN_time", "GEN_users", "GEN_relayA", "GEN_lifeA", "GEN_stream"])),
+                run=with_server_trace(core_run(["MC_time", "MC_life", "MC_stream", "MC_reaper"], ["GEN_time", "GEN_users", "GEN_relayA", "GEN_lifeA", "GEN_stream", "GEN_reaper"])),
                 assumptions=BASE_ASSUME),
     "C07": dict(title="permissions and channels live one full timeout past their last refresh", level="model_checking",
                 run=with_server_trace(core_run(["MC_relay", "MC_relayB", "MC_steps"], ["GEN_relayA", "GEN_relayB", "GEN_steps"])),
@@ -223,8 +249,7 @@ PROPS = {
                 run=with_server_trace(core_run(["MC_relay", "MC_relayB"], ["GEN_relayA", "GEN_relayB", "GEN_relayD", "GEN_recycle"])),
                 assumptions=BASE_ASSUME),
     "C09": dict(title="no input can crash, wedge or spin an endpoint", level="exploration",
-                run=core_run(["MC_disp_serverudp", "MC_disp_serverstream", "MC_disp_client", "MC_framer"],
-                             ["GEN_disp_serverudp", "GEN_disp_serverstream", "GEN_disp_client", "GEN_framer", "GEN_tcpB", "GEN_auth"]),
+                run=c09_run,
                 assumptions=["Dispatch.tla is a decision table over message SHAPES (36 for the datagram listener, 13 for the stream listener, 22 for the client's HandleInbound) in three endpoint states; "
                              "TLC enumerates shape x state, the harness concretises each shape to bytes (free bytes from the seed) and compares the outcome class (answer + pinned code / relayed / silent / stream closed; handled, error)",
                              "after every delivery a liveness probe: a Binding transaction from the same and from another party (server), the client's own Binding transaction (client); a real-time watchdog turns a spin or a stuck goroutine into a verdict",
